@@ -12,7 +12,7 @@ ID = "C13"
 LEVEL = "exploration"
 RULE = ("the C01 structure family biased towards crystallites, vacancy shells (an atom on a lattice site whose neighbours "
         "were all removed), defective crystals, two-grain cells and slabs; radii covalent / vdw / vdw_covalent / custom "
-        "array, bond_threshold 0.4-1.0. Non-trivial = a cluster was returned; the evidence counts separately the clusters "
+        "array, bond_threshold 0.4-1.0; plus a slice of the enumerated C02 / C03 universes. Non-trivial = a cluster was returned; the evidence counts separately the clusters "
         "from which localization or cleaning removed atoms. distinct = (family, pbc, cell mode, size bucket, parameters, "
         "number of clusters)")
 ASSUMPTIONS = ["matid.geometry.get_dimensionality is the reference (it is itself the subject of C09)",
@@ -20,7 +20,7 @@ ASSUMPTIONS = ["matid.geometry.get_dimensionality is the reference (it is itself
 CASE_TIMEOUT = 600
 BUDGET_S = {"quick": 800, "thorough": 3300}
 worker_init = sbcfam.worker_init
-FAMS = ["crystallite", "vacancy_shell", "vacancy_shell", "defective", "two_crystals", "slab", "crystal"]
+FAMS = ["crystallite", "vacancy_shell", "vacancy_shell", "defective", "two_crystals", "slab", "crystal", "shared_species_stack"]
 
 
 def floors(tier):
@@ -34,11 +34,59 @@ def gen_cases(tier, seed):
     for k, child in enumerate(ss.spawn(200 if q else 3000)):
         cases.append({"seed": int(child.generate_state(1)[0]), "max_atoms": 110 if q else 300, "family": FAMS[k % len(FAMS)],
                       "allow_invalid": False})
+    from gen import slabs
+    rng = np.random.default_rng([seed, 1313])
+    u2, u3 = slabs.c02_cells(), slabs.c03_cells()
+    for kind, uni, n in (("c02cell", u2, 25 if q else 250), ("c03cell", u3, 25 if q else 250)):
+        for i in rng.choice(len(uni), size=n, replace=False):
+            cases.append({"kind": kind, "cell": uni[int(i)], "seed_class": seed % 4})
     return cases
 
 
 def run_case(case):
+    if case.get("kind") in ("c02cell", "c03cell"):
+        return run_enumerated(case)
     return sbcfam.run_sbc_case(case, want_c13=True, determinism=False)
+
+
+def run_enumerated(case):
+    """A slice of the C02 / C03 universes: their clusters are judged by the same C13 postcondition."""
+    import matid
+    from gen import slabs
+    from monitors import core, pipeline
+    cell = case["cell"]
+    rec = core.Recorder()
+    rng = np.random.default_rng(slabs.stable_seed(cell["key"], case["seed_class"], 0))
+    try:
+        if case["kind"] == "c02cell":
+            base, prim, proto, dim = slabs.build_c02(cell)
+            groups = {}
+        else:
+            base, groups = slabs.build_c03(cell)
+        atoms, _ = slabs.present(base, rng, noise=cell["noise"], track=groups)
+    except Exception as e:
+        out = rec.export(); out["discarded"] = "builder:%s" % type(e).__name__; out["info"] = {"nontrivial": False, "classes": {}}
+        return out
+    if len(atoms) > 500:
+        out = rec.export(); out["discarded"] = "too_many_atoms"; out["info"] = {"nontrivial": False, "classes": {}}
+        return out
+    params = {"radii": ["covalent", "vdw_covalent"][int(rng.integers(2))], "bond_threshold": float(rng.choice([0.65, 0.8]))}
+    pipeline.reset_stage_state()
+    core.set_recorder(rec)
+    n = -1
+    try:
+        try:
+            clusters = matid.SBC().get_clusters(atoms, **params)
+            n = len(clusters)
+            pipeline.check_cluster_dimensionality(rec, sbcfam.M_C13, atoms, params, clusters, pipeline.changed_clusters())
+        except Exception as e:
+            rec.note("sbc_exception:%s" % type(e).__name__)
+    finally:
+        core.set_recorder(None)
+    out = rec.export()
+    out["info"] = {"key": "%s|%s" % (case["kind"], cell["key"]), "nontrivial": n > 0, "classes": {"family": case["kind"], "n_clusters": n, "radii": params["radii"]}}
+    out["sample"] = {"cell": cell["key"], "natoms": len(atoms), "params": params, "n_clusters": n}
+    return out
 
 
 def offline(cases, results, tier):
